@@ -92,6 +92,25 @@ def body_ref(c, ctx):
             ctx.close('ref_gradient', dphi, want, 1e-10, mag, i=i, **sig)
         if ctx.failures:
             return
+    # ONE instance evaluated at a second point array of the same shape that shares some coordinates with the first (a cell rule
+    # followed by another rule containing the same abscissae): the same fields as a fresh instance delivers
+    if c['layout'] == 'shared' and not skeleton and X.shape[0] >= 1:
+        X2 = X.copy()
+        X2[0] = X2[0][::-1]
+        if X.shape[0] == 1:
+            X2[0, ::2] = X[0, ::2]
+        for i in range(N):
+            e1 = build_element(d)
+            e1.lbasis(X.copy(), i)
+            a = e1.lbasis(X2.copy(), i)
+            b = build_element(d).lbasis(X2.copy(), i)
+            for fa, fb in zip(a, b):
+                if fa is None or fb is None:
+                    continue
+                if not np.array_equal(np.asarray(fa), np.asarray(fb), equal_nan=True):
+                    ctx.fail('ref_instance_reuse', f'function {i}: an instance that has been evaluated elsewhere before delivers fields '
+                             f'differing by {np.abs(np.asarray(fa, dtype=float) - np.asarray(fb, dtype=float)).max()} from a fresh one', **sig)
+                    return
     # the reference vertices given as an INTEGER array (as in hand-written vertex rules [[0, 1]]): the same fields as for floats
     if c['layout'] == 'shared' and not skeleton:
         Xi = np.rint(np.asarray(e.refdom.p)).astype(np.int64)
